@@ -166,6 +166,8 @@ type c10Case struct {
 	// persisted: the emulator has a persist path, and a complete snapshot pass happens between the write and EXEC (the
 	// saver's bookkeeping of "changed since the last snapshot" must not be what decides whether a watched key changed)
 	persisted bool
+	// interlude: what the watching connection does between the write and MULTI (0 nothing, 1 CLIENT INFO, 2 CLIENT LIST, 3 reads)
+	interlude int
 }
 
 // c10WatchStyles: the ways a key can end up in the watch set. w is always the key the row modifies.
@@ -262,6 +264,19 @@ func c10Run(r *verdict.Run, e *emu, cs c10Case) {
 	if cs.position == "before-multi" {
 		issue()
 		snapshot()
+		// harmless commands of the watching connection between WATCH and MULTI (introspection looks at the watch set,
+		// reads look at the key): none of them may end or disturb the watch
+		switch cs.interlude {
+		case 1:
+			step(A, sa, "A", "CLIENT", "INFO")
+		case 2:
+			step(A, sa, "A", "CLIENT", "LIST")
+		case 3:
+			step(A, sa, "A", "TYPE", "w")
+			step(A, sa, "A", "EXISTS", "w", "o")
+			step(A, sa, "A", "DBSIZE")
+			step(A, sa, "A", "CLIENT", "GETNAME")
+		}
 		if cs.w.rewatch {
 			step(A, sa, "A", "WATCH", "w")
 			step(A, sa, "A", "WATCH", "o", "w", "nokey")
@@ -288,6 +303,9 @@ func c10Run(r *verdict.Run, e *emu, cs c10Case) {
 	key := fmt.Sprintf("%s/%s/%s/%s/watch-style-%d", cs.w.name, cs.w.state, cs.issuer, cs.position, cs.style)
 	if cs.persisted {
 		key += "/snapshot-before-exec"
+	}
+	if cs.interlude > 0 {
+		key += fmt.Sprintf("/interlude-%d", cs.interlude)
 	}
 	rep := map[string]any{"script": log, "expect_abort": cs.w.modify}
 	// cross-check: the model must agree with the explicit table
@@ -359,6 +377,11 @@ func checkC10(r *verdict.Run) {
 			cases = append(cases, c)
 		}
 	}
+	for i := range cases {
+		if cases[i].position == "before-multi" {
+			cases[i].interlude = i % 4
+		}
+	}
 	// a sample of the cases again on an emulator with a persist path, with a snapshot pass between the write and EXEC
 	{
 		stride := tierPick(r, 23, 5)
@@ -375,7 +398,7 @@ func checkC10(r *verdict.Run) {
 	}
 	r.Rule = fmt.Sprintf("exhaustive matrix: %d write/control rows (every effective write command per key type and state, reads, failing writes, writes to other keys, natural expiry, WATCH dropped by UNWATCH/DISCARD/EXEC) x issuer {watching connection, other connection} x position {between WATCH and MULTI, between MULTI and EXEC} x 8 ways of watching the key (all 8 for a write by the other connection before MULTI, rotating otherwise: alone, with other keys, in a second WATCH that lists already watched keys before or after it, twice); "+
 		"each case on a fresh emulator: WATCH w; [write]; MULTI; [write]; SET marker 1; EXEC - EXEC must be null and marker absent iff the row is an effective write; the reference model is run on the same script and must agree with the table (else inconclusive). "+
-		"a sample of the cases runs again with a persist path and a complete snapshot pass between the write and EXEC. Plus the schedule dimension: 4-8 connections increment a shared string counter / hash field / list length with WATCH-read-MULTI-write-EXEC under yields injected around the data store lock; every successful EXEC must have written a distinct value and the final value must equal the number of successful EXECs. distinct = (row, state, issuer, position, outcome) + concurrent configurations", len(table))
+		"between the write and MULTI the watching connection runs nothing, CLIENT INFO, CLIENT LIST or reads of the key; a sample of the cases runs again with a persist path and a complete snapshot pass between the write and EXEC. Plus the schedule dimension: 4-8 connections increment a shared string counter / hash field / list length with WATCH-read-MULTI-write-EXEC under yields injected around the data store lock; every successful EXEC must have written a distinct value and the final value must equal the number of successful EXECs. distinct = (row, state, issuer, position, outcome) + concurrent configurations", len(table))
 	r.Set("matrix_rows", len(table))
 	r.Set("matrix_cases", len(cases))
 	r.SetExhaustive(true)
